@@ -38,6 +38,7 @@ func checkC11(c *Ctx, r *Report) {
 	decodeCountUsed(c, r, "C11.R2.decode-count", "a TSIG secret whose base64 is padded is used with one or two zero octets appended; for secrets longer than the HMAC block the MAC is then not the RFC 2104 HMAC of the secret, and a correct MAC from another implementation is refused")
 	secretFromProvider(c, r, "C11.R2.secret-from-provider", "a MAC is accepted (or made) under the secret another provider in the process holds for the same key name, not under the secret of the key named")
 	stubUntouched(c, r, "C11.R4.stub-untouched")
+	providerPrecedence(c, r, "C11.R2.provider-precedence")
 }
 
 func isUint64(v ssa.Value) bool {
